@@ -57,6 +57,10 @@ type zzC14Spec struct {
 	// Faults, parallel to Sizes: the failure injected into that save ("":
 	// none), see zzC14Fault.
 	Faults []string `json:"faults"`
+	// Serve, parallel to Sizes (filter writer only): how the new list is
+	// offered: "" or "length" (HTTP with Content-Length), "chunked" (HTTP,
+	// size not announced), "file" (a local source file).
+	Serve []string `json:"serve"`
 }
 
 // zzC14Writer is one of the real save paths.
@@ -189,6 +193,14 @@ func zzC14Run(t *testing.T, sp *zzC14Spec, w zzC14Writer) {
 
 		ver++
 		lg.add(map[string]any{"ev": "begin", "id": ver, "want": size})
+		// What the harness itself has to write for this save (a source
+		// file) is written before the environment turns hostile.
+		if p, ok := w.(interface {
+			prepare(t *testing.T, ver, size int)
+		}); ok {
+			p.prepare(t, ver, size)
+		}
+
 		undo, faulted := zzC14Fault(t, fault, dst)
 		zzC14Mark(fmt.Sprintf("begin/%d", ver))
 		err := w.save(t, ver, size)
